@@ -275,6 +275,7 @@ func InstallStubs() {
 	for i := range randomness.TestMethodArr {
 		item := i
 		name := origNames[i]
+		twoValued := strings.Contains(name, "重叠子序列")
 		randomness.TestMethodArr[i].Runner = func(data []byte) *randomness.TestResult {
 			if item == 0 {
 				vsched.Yield("round")
@@ -312,7 +313,14 @@ func InstallStubs() {
 			if r.Sc.Pass[k][item] {
 				p = 0.5
 			}
-			return &randomness.TestResult{Name: name, P: p, Q: r.Sc.Q[k][item], Pass: r.Sc.Pass[k][item]}
+			res := &randomness.TestResult{Name: name, P: p, Q: r.Sc.Q[k][item], Pass: r.Sc.Pass[k][item]}
+			if twoValued {
+				// the overlapping-subsequence item really has a second statistic: the stub fills it with a decoy
+				// (P2 below P, one constant Q2). The decision rule counts Pass and bins the s Q-values (Q1);
+				// a workflow that lets P2/Q2 leak into the histogram sees all samples in one bin.
+				res.P2, res.Q2 = p/4, 0.95
+			}
+			return res
 		}
 	}
 }
